@@ -431,7 +431,12 @@ func checkSameRequest(p *Prog, r *Report, ru *Rule, bidir []*ssa.Function, admit
 		args := calls[0].Common().Args
 		var wOK, rOK bool
 		for _, a := range args {
-			a = stripConv(a, false)
+			/* A pass-through meter around either half is that half. */
+			if wa := stripConv(unwrapPassThrough(p, a, "Write"), false); wa != stripConv(a, false) {
+				a = wa
+			} else {
+				a = stripConv(unwrapPassThrough(p, a, "Read"), false)
+			}
 			if pa, ok := a.(*ssa.Parameter); ok && typeIs(pa.Type(), "net/http", "ResponseWriter") {
 				wOK = true
 			}
